@@ -28,7 +28,12 @@ RULE = ("Hypothesis draws definition closures for the layout profile: 1-2 files,
         "constant-expression lengths, alias chains, messages in messages, explicit user padding) with validation on. The sub-domain of ALL "
         "sequences of <= 4 fields over {1,2,4,8}-byte scalars and arrays of length 1 and 3 (22620 structs, each also as element of an array "
         "inside a wrapper message after a single byte) is enumerated completely in both tiers, auto_pad on and off, and so is a table of "
-        "definitions whose declared bytes total 65520..65551 for strictest alignment 1/2/4/8. Oracle: accepted <=> "
+        "definitions whose declared bytes total 65520..65551 for strictest alignment 1/2/4/8. The configuration itself is chosen in every "
+        "documented way: Parser(...) arguments (all of the above), and a deterministic matrix of 4 layouts (interior padding, trailing "
+        "padding, none, arrays) x auto_pad on/off through compile(...) keyword arguments, command line flags (--no_auto_pad, "
+        "--no_core_import) and a compiler_options section in the root file (AUTO_PAD, VALIDATE_ALIGNMENT, IMPORT_COREDEFS; honoured by the "
+        "command line), each compiled to a C header whose declared fields must be the user's list with padding exactly in the natural "
+        "gaps, or rejected with AlignmentError (exit status 1, no output); thorough adds random layout closures through drawn entry points. Oracle: accepted <=> "
         "(auto_pad on or the natural layout of the user's list needs no padding anywhere) and natural size <= 65535, else AlignmentError / "
         "InvalidMessageSize; for every accepted definition the emitted fields minus 'padding_<n>_' char fields equal the user's list "
         "(names, types, lengths, order), every field starts at a multiple of its alignment, the size is the sum of the emitted fields, a "
@@ -326,6 +331,150 @@ def gcc_probe(p, ps, root, sizes, trace, res):
 
 
 # ----------------------------------------------------------------------------------------------
+# the documented ways of choosing the configuration (auto_pad on/off with validation on)
+
+WAYS = ["compile-kwargs", "cli-flags", "yaml-options"]
+CFG_LAYOUTS = {
+    "interior": [("a", "uint8", None), ("b", "int32", None)],
+    "trailing": [("a", "double", None), ("b", "int16", None)],
+    "none": [("a", "int32", None), ("b", "int16", None), ("c", "int16", None)],
+    "array-interior": [("a", "char", 3), ("b", "uint64", 2)],
+}
+STRUCT_RE = re.compile(r"typedef struct \{(.*?)\}\s*(\w+);", re.S)
+CFIELD_RE = re.compile(r"^\s*(.+?)\s+(\w+)(?:\[(\d+)\])?;\s*$", re.M)
+
+
+def config_program(layout: str, auto_pad: bool, way: str, core: bool = False, explicit_validate: bool = False, yaml_core: bool = False) -> G.Program:
+    fields = [G.FieldSpec(n, t if ln is None else f"{t}[{ln}]", t, ln, None if ln is None else str(ln)) for n, t, ln in CFG_LAYOUTS[layout]]
+    defs = [G.Def("struct", "CFG_REC", "root.yaml", fields=[G.FieldSpec(f.name, f.type_text, f.base, f.length, f.length_text) for f in fields]),
+            G.Def("message", "CFG_MSG", "root.yaml", id=1234, fields=fields)]
+    spec = G.FileSpec(path="root.yaml", defs=defs)
+    if way == "yaml-options":
+        spec.compiler_options["AUTO_PAD"] = auto_pad
+        if explicit_validate:
+            spec.compiler_options["VALIDATE_ALIGNMENT"] = True
+        if yaml_core or not core:
+            spec.compiler_options["IMPORT_COREDEFS"] = core
+    p = G.Program([spec], "root.yaml", {"auto_pad": auto_pad, "validate_alignment": True, "import_coredefs": core}, "single", {"config-matrix", "layout/" + layout})
+    return p
+
+
+def header_fields(text: str):
+    out = {}
+    for body, cname in STRUCT_RE.findall(text):
+        out[cname] = [(n, int(ln) if ln else None) for _t, n, ln in CFIELD_RE.findall(body)]
+    return out
+
+
+def config_case(p: G.Program, way: str, res: Result = None):
+    """Compile closure p to a C header through one entry point with the configuration written the way that entry point documents:
+    keyword arguments of pyrtma.compile.compile(), command line flags (--no_auto_pad, --no_core_import), or a compiler_options
+    section in the root file (honoured by the command line entry point).  Same oracle as at parser level."""
+    import sys
+
+    exp, at = expected_outcome(p)
+    trace = {"config": way, "program": p.to_json()}
+    opts = p.spec(p.root).compiler_options
+    how = {"compile-kwargs": f"compile(auto_pad={p.auto_pad}, validate_alignment=True, import_coredefs={p.import_coredefs})",
+           "cli-flags": "python -m pyrtma.compile" + ("" if p.auto_pad else " --no_auto_pad") + ("" if p.import_coredefs else " --no_core_import"),
+           "yaml-options": f"python -m pyrtma.compile with compiler_options {opts} in the root file"}[way]
+    d = G.scratch_dir("c11cfg")
+    try:
+        root = p.write(os.path.join(d, "src"))
+        outdir = os.path.join(d, "out")
+        os.makedirs(outdir)
+        hdr = os.path.join(outdir, "defs.h")
+        if way == "compile-kwargs":
+            import pyrtma.compile as pc
+
+            try:
+                pc.compile(defs_files=[root], out_dir=outdir, out_name="defs", c_lang=True, **p.compile_kwargs())
+                got = "ok"
+            except Exception as e:  # noqa
+                got = type(e).__name__
+            detail = ""
+        else:
+            args = [sys.executable, "-m", "pyrtma.compile", "-i", root, "--c", "-o", outdir, "-n", "defs"]
+            if way == "cli-flags":
+                args += ([] if p.auto_pad else ["--no_auto_pad"]) + ([] if p.import_coredefs else ["--no_core_import"])
+            env = dict(os.environ)
+            env["PYTHONPATH"] = os.path.join(os.environ.get("VERIF_REPO", "/repo"), "src")
+            try:
+                r = subprocess.run(args, cwd=d, env=env, stdin=subprocess.DEVNULL, capture_output=True, text=True, timeout=180)
+            except subprocess.TimeoutExpired:
+                if res is not None:
+                    res.inconclusive += 1
+                return
+            detail = (r.stdout + r.stderr)[-300:]
+            if r.returncode == 0:
+                got = "ok"
+            else:
+                m = re.search(r"^(\w+): ", r.stdout, re.M)
+                got = m.group(1) if (r.returncode == 1 and m) else f"exit-status-{r.returncode}"
+        what = f"{how}, layout {[f.type_text for f in p.user_fields('CFG_MSG')] if p.has('CFG_MSG') else p.shape}"
+        if got != exp:
+            if exp == "ok":
+                raise Violation(f"config/{way}/rejected-although-acceptable", f"{what}: expected acceptance, got {got} {detail!r}", trace)
+            if got == "ok":
+                raise Violation(f"config/{way}/accepted-although-{'padding-needed' if exp == 'AlignmentError' else 'oversize'}",
+                                f"{what}: {_describe(p, at)} needs {G.natural_layout(p, at).own_padding} padding byte(s) with auto_pad off "
+                                f"(size {G.natural_layout(p, at).size}); expected {exp}, but the compilation succeeded", trace)
+            raise Violation(f"config/{way}/wrong-error/{exp}/{got}", f"{what}: expected {exp}, got {got} {detail!r}", trace)
+        if exp != "ok":
+            if os.path.exists(hdr):
+                raise Violation(f"config/{way}/output-written-despite-error", f"{what}: {exp} was reported but {os.path.basename(hdr)} was written", trace)
+        else:
+            if not os.path.exists(hdr):
+                raise Violation(f"config/{way}/no-output", f"{what}: success reported but no header was written", trace)
+            with open(hdr) as f:
+                got_fields = header_fields(f.read())
+            for dd in p.defs:
+                if dd.kind not in ("struct", "message"):
+                    continue
+                cn = ("MDF_" if dd.kind == "message" else "") + dd.name
+                want = [(n, ln) for n, _t, ln in G.emitted_fields(p, dd.name)]
+                if got_fields.get(cn) != want:
+                    raise Violation(f"config/{way}/emitted-layout", f"{what}: the C header declares {cn} with fields {got_fields.get(cn)}; the user's list "
+                                    f"with padding exactly in the gaps of the natural layout is {want}", trace)
+        if res is not None:
+            res.count("config-cases")
+            res.count(f"config/{way}/{exp}")
+            res.shape("config", way, p.auto_pad, exp, tuple(sorted(opts.items())), p.import_coredefs, tuple(sorted(c for c in p.classes if c.startswith("layout/"))))
+    finally:
+        shutil.rmtree(d, ignore_errors=True)
+
+
+def config_matrix():
+    """(layout, auto_pad, way, kwargs) for the deterministic matrix."""
+    cases = []
+    for layout in CFG_LAYOUTS:
+        for ap in (True, False):
+            cases.append((layout, ap, "compile-kwargs", {}))
+            cases.append((layout, ap, "compile-kwargs", {"core": True}))
+            if layout != "array-interior":
+                cases.append((layout, ap, "cli-flags", {}))
+                cases.append((layout, ap, "yaml-options", {}))
+    for layout in ("interior", "trailing", "none"):
+        cases.append((layout, False, "yaml-options", {"explicit_validate": True}))
+        cases.append((layout, False, "yaml-options", {"core": True, "yaml_core": layout == "none"}))
+    cases.append(("array-interior", False, "yaml-options", {}))
+    cases.append(("array-interior", True, "cli-flags", {"core": True}))
+    return cases
+
+
+def run_config_matrix(idx: int, nshards: int, res: Result):
+    cli = [c for c in config_matrix() if c[2] != "compile-kwargs"]
+    inproc = [c for c in config_matrix() if c[2] == "compile-kwargs"]
+    mine = [c for i, c in enumerate(cli) if i % nshards == idx] + [c for i, c in enumerate(inproc) if i % nshards == idx]
+    for layout, ap, way, kw in mine:
+        res.evaluations += 1
+        try:
+            config_case(config_program(layout, ap, way, **kw), way, res)
+        except Violation as v:
+            res.add_finding(v.key, v.what, v.trace)
+
+
+# ----------------------------------------------------------------------------------------------
 # exhaustive sub-domain
 
 ELEMS = [(w, ln) for w in (1, 2, 4, 8) for ln in (None, 1, 3)]
@@ -429,11 +578,25 @@ def boundary_table(idx: int, nshards: int, res: Result):
 # ----------------------------------------------------------------------------------------------
 
 
-def shard(idx: int, nshards: int, seed: int, n_layout: int, n_general: int, gcc_every: int):
+def shard(idx: int, nshards: int, seed: int, n_layout: int, n_general: int, gcc_every: int, n_cfg: int = 0):
     G.quiet()
     res = Result()
     exhaustive(idx, nshards, res)
     boundary_table(idx, nshards, res)
+    run_config_matrix(idx, nshards, res)
+    if n_cfg:
+        rnd = G.RandomChooser(seed + 7)
+        for k in range(n_cfg):  # random layout closures through a drawn entry point (thorough)
+            p = G.build_layout_program(rnd)
+            way = rnd.choice(WAYS)
+            if way == "yaml-options":
+                p.spec(p.root).compiler_options.update({"AUTO_PAD": p.auto_pad, "IMPORT_COREDEFS": False})
+                p.rerender()
+            res.evaluations += 1
+            try:
+                config_case(p, way, res)
+            except Violation as v:
+                res.add_finding(v.key, v.what, v.trace)
     counter = {"n": 0}
 
     def body(p):
@@ -455,7 +618,7 @@ def run(ctx: RunContext) -> int:
     n_layout = ctx.scale(600, 6000)
     n_general = ctx.scale(150, 1500)
     gcc_every = 12 if ctx.quick else 1
-    res = run_shards(shard, [(i, 16, derive_seed(ctx.seed, i), n_layout, n_general, gcc_every) for i in range(16)])
+    res = run_shards(shard, [(i, 16, derive_seed(ctx.seed, i), n_layout, n_general, gcc_every, 0 if ctx.quick else 12) for i in range(16)])
     res.notes.append(f"exhaustive sub-domain complete: all {sum(1 for _ in all_sequences())} sequences of <= 4 fields over "
                      "{1,2,4,8}-byte scalars and arrays of length 1 and 3, as struct and as array element of a wrapper message, auto_pad on and off")
     return conclude(ctx, res, RULE, ASSUME, t0)
@@ -464,4 +627,7 @@ def run(ctx: RunContext) -> int:
 def replay_trace(trace: dict):
     G.quiet()
     p = G.Program.from_json(trace["program"])
+    if "config" in trace:
+        config_case(p, trace["config"])
+        return
     check_program(p, None, gcc=shutil.which("gcc") is not None and not p.import_coredefs)
